@@ -9,7 +9,8 @@ import struct
 
 from ..cfg import cfg_of
 from ..model import AnalysisError, call_name, calls_in, dotted, norm, walk_no_nested
-from .. import bits, rules
+from .. import bits, normal, rules
+from .. import conds as cnd
 from . import _block
 
 REF = os.path.join(os.path.dirname(os.path.dirname(__file__)), "reference", "e4.json")
@@ -212,8 +213,9 @@ def check_reassembly(ctx):
     f = repo.method("Protocol", "_add_message_block", inherited=False)
     ctx.touch(f)
     q = f.qualname
-    cfg = cfg_of(f.node)
-    p = f.node.args.args[1].arg
+    fn = normal.normalised(ctx, f)
+    cfg = cfg_of(fn)
+    p = fn.args.args[1].arg
     key = f"{p}.header.system"
     tbl = "self._incomplete_messages"
     muts = []
@@ -241,24 +243,23 @@ def check_reassembly(ctx):
     ok = len(stores) == 1 and len(apps) == 1 and len(dels) == 1
     ctx.ob("C16.P3", q, ok, "one create, one append and one delete site" if ok else f"create/append/delete sites: {len(stores)}/{len(apps)}/{len(dels)}", key="sites", where=f.where)
     if ok:
-        sc = [(norm(t), v) for t, v in cfg.dominating_conditions(stores[0][0])]
-        ac = [(norm(t), v) for t, v in cfg.dominating_conditions(apps[0][0])]
-        guard = f"{key} not in {tbl}"
-        ok1 = (guard, True) in sc and (guard, False) in ac or ((f"{key} in {tbl}", False) in sc and (f"{key} in {tbl}", True) in ac)
-        ctx.ob("C16.P3", q, ok1, "a first block opens a message under its system bytes, later blocks are appended to it in arrival order" if ok1 else f"create/append guards are {sc} / {ac}", key="keyed", where=f.where)
+        ok1 = cnd.holds(cfg, stores[0][0], f"{key} not in {tbl}") and cnd.holds(cfg, apps[0][0], f"{key} in {tbl}")
+        ctx.ob("C16.P3", q, ok1, "a first block opens a message under its system bytes, later blocks are appended to it in arrival order" if ok1 else f"create/append guards are [{cnd.describe(cfg, stores[0][0])}] / [{cnd.describe(cfg, apps[0][0])}]", key="keyed", where=f.where)
         ok2 = norm(stores[0][0].ast.value) == "self.message_type.from_block(block)".replace("block", p)
         ctx.ob("C16.P3", q, ok2, "the message is opened from the first block" if ok2 else f"a new message is created as `{norm(stores[0][0].ast.value)}`", key="from-block", where=f.where)
-        dc = [(norm(t), v) for t, v in cfg.dominating_conditions(dels[0][0])]
-        ok3 = ("not message.complete", False) in dc or ("message.complete", True) in dc
-        ctx.ob("C16.P3", q, ok3, "the entry is deleted exactly when the message is complete" if ok3 else f"delete guard is {dc}", key="delete-when-complete", where=f.where)
-    rets = [n for n in cfg.real_nodes() if isinstance(n.ast, ast.Return)]
-    none_r = [r for r in rets if isinstance(r.ast.value, ast.Constant) and r.ast.value.value is None]
-    msg_r = [r for r in rets if r not in none_r]
-    ok = len(none_r) == 1 and len(msg_r) == 1 and ("not message.complete", True) in [(norm(t), v) for t, v in cfg.dominating_conditions(none_r[0])] and norm(msg_r[0].ast.value) == "message"
-    ctx.ob("C16.P3", q, ok, "an incomplete message yields None, a complete one is returned" if ok else "the completed message is not returned exactly when complete", key="returns", where=f.where)
-    mv = [n for n in cfg.real_nodes() if isinstance(n.ast, ast.Assign) and norm(n.ast.targets[0]) == "message"]
-    ok = len(mv) == 1 and norm(mv[0].ast.value) == f"{tbl}[{key}]"
+    mv = [n for n in cfg.real_nodes() if isinstance(n.ast, ast.Assign) and isinstance(n.ast.targets[0], ast.Name) and norm(n.ast.value) == f"{tbl}[{key}]"]
+    ok = len(mv) == 1
     ctx.ob("C16.P3", q, ok, "completeness is judged on the arriving block's own message" if ok else "the examined message is not the entry of the arriving block's system bytes", key="message-var", where=f.where)
+    mvar = mv[0].ast.targets[0].id if mv else "message"
+    if len(dels) == 1:
+        ok3 = cnd.holds(cfg, dels[0][0], f"{mvar}.complete")
+        ctx.ob("C16.P3", q, ok3, "the entry is deleted exactly when the message is complete" if ok3 else f"delete guard is [{cnd.describe(cfg, dels[0][0])}]", key="delete-when-complete", where=f.where)
+    rets = [n for n in cfg.real_nodes() if isinstance(n.ast, ast.Return)]
+    none_r = [r for r in rets if r.ast.value is None or (isinstance(r.ast.value, ast.Constant) and r.ast.value.value is None)]
+    msg_r = [r for r in rets if r not in none_r]
+    ok = len(none_r) >= 1 and len(msg_r) == 1 and all(cnd.holds(cfg, r, f"not {mvar}.complete") for r in none_r) and cnd.holds(cfg, msg_r[0], f"{mvar}.complete") and norm(msg_r[0].ast.value) == mvar \
+        and not cfg.path_exists(cfg.entry, cfg.exit, avoid=rets, no_exc=True)
+    ctx.ob("C16.P3", q, ok, "an incomplete message yields None, a complete one is returned" if ok else "the completed message is not returned exactly when complete", key="returns", where=f.where)
     # message properties
     for prop, want in (("data", "b''.join((block.data for block in self._blocks))"), ("complete", "self.blocks[-1].header.last_block"), ("header", "self._blocks[-1].header")):
         pm = repo.method("SecsIMessage", prop, inherited=False)
@@ -273,7 +274,7 @@ def check_reassembly(ctx):
     sb = repo.method("Message", "_split_blocks", inherited=False)
     cfg2 = cfg_of(sb.node)
     keep = [n for n in cfg2.real_nodes() if isinstance(n.ast, ast.Assign) and norm(n.ast.targets[0]) == "last_block" and norm(n.ast.value) == "header.last_block"]
-    ok = len(keep) == 1 and any(norm(t).startswith("not complete") and v for t, v in cfg2.dominating_conditions(keep[0]))
+    ok = len(keep) == 1 and cnd.holds(cfg2, keep[0], "not complete")
     ctx.ob("C16.P3", sb.qualname, ok, "a received first block keeps its own end bit" if ok else "for a received block (complete=False) the end bit is not taken from its header", key="keep-end-bit", where=sb.where)
 
 
